@@ -22,6 +22,10 @@ type ActiveUser struct {
 	sessionsM sync.RWMutex
 	sessions  map[uint32]*mux.Session
 	retired   bool // set under sessionsM by TerminateActiveUser: no session may be added afterwards
+
+	// gone is closed by TerminateActiveUser once the record has been removed from the panel
+	gone     chan struct{}
+	goneOnce sync.Once
 }
 
 var errUserRetired = errors.New("the active user has been terminated")
